@@ -421,6 +421,10 @@ def s2_raises(chk: Check, proj: Project, w) -> None:
                     chk.holds("S2a", key, m.loc(r), f"reviewed: {why}", nontrivial=False)
                 else:
                     chk.violated("S2a", key, m.loc(r), f"`{short(r)}` in the parsing scope raises {cls}: malformed tag text reaches the caller as {cls} instead of TemplateSyntaxError")
+        for a in [x for x in body_walk(f) if isinstance(x, ast.Assert)]:
+            n += 1
+            chk.violated("S2a", f"{m.name.replace('django_components.', '')}:{q}:{short(a, 70)}", m.loc(a),
+                         f"`{short(a)}` in the parsing scope: when the condition fails the caller sees AssertionError, not TemplateSyntaxError (and nothing at all under `python -O`) - e.g. `{{% slot | %}}`: Django dispatches on the first word `slot`, the library's parser attaches the lone `|` to it")
     chk.floor("S2a", n, 45)
 
 
